@@ -292,3 +292,17 @@ func lastIndex(s, sub string) int {
 	}
 	return -1
 }
+
+// A soft memory limit for every harness process: several harnesses make the code under test allocate
+// large transient buffers from many workers at once (e.g. pkg/scale's decodeBytes allocating a declared
+// length); without a limit the collector lets that garbage pile up to tens of gigabytes before the next
+// cycle.  The limit only makes the collector run earlier; it never fails an allocation.
+func init() {
+	limit := int64(10) << 30
+	if s := os.Getenv("VERIF_MEMLIMIT_MB"); s != "" {
+		if v, err := strconv.ParseInt(s, 10, 64); err == nil && v > 0 {
+			limit = v << 20
+		}
+	}
+	debug.SetMemoryLimit(limit)
+}
